@@ -349,3 +349,161 @@ reg.add(Proc(
         ('resolver-inv', resolver_inv(c)),
     ],
 ))
+
+
+# ------------------------------------------------------------------ is_consistent and ro(): the public entry points
+# lin_incons(C)   ghost: some specification among C and its ancestors has no C3 merge of its base linearizations
+#                 (recursive over the base graph: the own merge of C, or lin_incons of a base)
+# The construction of a resolver (C3.resolver -> C3.__init__, recursive over the bases, memo table) is an ASSUMED contract
+# here: a fresh resolver for C whose base_tree is [[C]] + [order of each base] + [bases], whose inherited flag says whether a
+# base is inconsistent, whose own flag is still unset, and whose order is preset only on the single-base fast path (always
+# mergeable).  It is checked bounded (falsify/C03.py: all ordered DAGs <= 4/5 nodes against Python's own MRO).
+bases_incons = z3.Function('some_base_is_inconsistent', Obj, z3.BoolSort())
+own_tree = z3.Function('own_base_tree', Obj, SSO)
+
+
+def _resolver_post(c):
+    r = c.res
+    T = rem(own_tree(c.a.C), NONE)
+    return [z3.Not(c.h0('$alloc')[r]), r != NONE, c.h('leaf')[r] == c.a.C, c.h('base_tree')[r] == own_tree(c.a.C),
+            no_none(own_tree(c.a.C), 'rs'),
+            is_strict(r) == z3.And(c.a.strict != NONE, truthy(c.a.strict)),
+            z3.Not(truthy(c.h('direct_inconsistency')[r])),
+            c.h('bases_had_inconsistency')[r] == box_bool(bases_incons(c.a.C)),
+            z3.Implies(c.h('_C3__mro')[r] != NONE, z3.And(mergeable(T), SeqEq(
+                z3.If(is_seq(c.h('_C3__mro')[r]), unbox_seq(c.h('_C3__mro')[r]), c.h('$list')[c.h('_C3__mro')[r]]), mrg(T)))),
+            z3.ForAll([z3.Const('rp_o', Obj)], z3.Implies(c.h0('$alloc')[z3.Const('rp_o', Obj)], z3.And(
+                c.h('direct_inconsistency')[z3.Const('rp_o', Obj)] == c.h0('direct_inconsistency')[z3.Const('rp_o', Obj)],
+                c.h('$list')[z3.Const('rp_o', Obj)] == c.h0('$list')[z3.Const('rp_o', Obj)])))]
+
+
+reg.add(Proc(R + 'C3.resolver', [('C', OBJ), ('strict', OBJ), ('base_mros', OBJ)], result=OBJ, trusted=True,
+             modifies=['$alloc', 'leaf', 'memo', 'base_tree', '_C3__mro', 'bases_had_inconsistency', 'direct_inconsistency', '$list'],
+             requires=lambda c: [('explicit-strictness', c.a.strict != NONE), ('no-precomputed-orders', c.a.base_mros == NONE)],
+             ensures=_resolver_post,
+             note='C3.resolver / C3.__init__: construction of the resolver tree (assumed, bounded: all ordered DAGs <= 4/5 nodes)'))
+reg.assumptions.append('C3.resolver/C3.__init__ build, for a specification C, a resolver whose base_tree is [[C]] + [the order computed for '
+                       'each base] + [the bases] and whose bases_had_inconsistency says whether some base (transitively) had no C3 merge '
+                       '(assumed contract; the recursion over the base graph and the single-base fast path are checked bounded)')
+
+
+def _had_inconsistency(ex, node, st, recv):
+    """the property C3.had_inconsistency: direct_inconsistency or bases_had_inconsistency"""
+    d = ex.read_field(st, recv.t, 'direct_inconsistency')
+    b = ex.read_field(st, recv.t, 'bases_had_inconsistency')
+    return [(st, V(OBJ, z3.If(truthy(d.t), d.t, b.t)))]
+
+
+reg.add(Proc(
+    R + 'is_consistent', [('C', OBJ)], source='ro.py:is_consistent', result=BOOL,
+    calls={'C3.resolver': R + 'C3.resolver', 'resolver.mro': R + 'C3.mro'},
+    dynattr={'had_inconsistency': _had_inconsistency},
+    modifies=['$alloc', 'leaf', 'memo', 'base_tree', '_C3__mro', 'bases_had_inconsistency', 'direct_inconsistency', '$list', '_C3__legacy_ro'],
+    ensures=lambda c: [('False-exactly-when-the-own-merge-or-a-base-is-inconsistent',
+                        c.res == z3.Not(z3.Or(z3.Not(mergeable(rem(own_tree(c.a.C), NONE))), bases_incons(c.a.C))))],
+))
+
+
+# ro(C, strict, base_mros, log_changed_ro, use_legacy_ro): the C3 order of the resolver, the legacy order when asked for
+STRICT_DEFAULT = z3.Const('C3_STRICT_IRO', Obj)
+LOG_DEFAULT = z3.Const('C3_LOG_CHANGED_IRO', Obj)
+LEGACY_DEFAULT = z3.Const('C3_USE_LEGACY_IRO', Obj)
+own_tree2 = z3.Function('own_base_tree_given_base_orders', Obj, Obj, SSO)
+
+
+def _resolver2_post(c):
+    r = c.res
+    T = rem(own_tree2(c.a.C, c.a.base_mros), NONE)
+    o = z3.Const('rq_o', Obj)
+    return [z3.Not(c.h0('$alloc')[r]), r != NONE, c.h('leaf')[r] == c.a.C, c.h('base_tree')[r] == own_tree2(c.a.C, c.a.base_mros),
+            no_none(own_tree2(c.a.C, c.a.base_mros), 'rs2'),
+            is_strict(r) == truthy(z3.If(c.a.strict != NONE, c.a.strict, STRICT_DEFAULT)),
+            z3.Not(truthy(c.h('direct_inconsistency')[r])),
+            z3.Implies(c.h('_C3__mro')[r] != NONE, z3.And(mergeable(T), SeqEq(
+                z3.If(is_seq(c.h('_C3__mro')[r]), unbox_seq(c.h('_C3__mro')[r]), c.h('$list')[c.h('_C3__mro')[r]]), mrg(T)))),
+            z3.ForAll([o], z3.Implies(c.h0('$alloc')[o], z3.And(
+                c.h('direct_inconsistency')[o] == c.h0('direct_inconsistency')[o], c.h('$list')[o] == c.h0('$list')[o])))]
+
+
+reg.add(Proc(R + 'C3.resolver2', [('C', OBJ), ('strict', OBJ), ('base_mros', OBJ)], result=OBJ, trusted=True,
+             modifies=['$alloc', 'leaf', 'memo', 'base_tree', '_C3__mro', 'bases_had_inconsistency', 'direct_inconsistency', '$list'],
+             ensures=_resolver2_post,
+             note='C3.resolver with optional strictness (class default) and precomputed base orders (assumed, bounded)'))
+
+
+def _class_flag(default):
+    def get(ex, node, st, recv):
+        return [(st, V(OBJ, default))]
+    return get
+
+
+def _ro_expected(c):
+    T = rem(own_tree2(c.a.C, c.a.base_mros), NONE)
+    use_legacy = truthy(z3.If(c.a.use_legacy_ro != NONE, c.a.use_legacy_ro, LEGACY_DEFAULT))
+    return T, use_legacy
+
+
+reg.add(Proc(R + '_logger', [], result=OBJ, trusted=True, ensures=lambda c: [c.res != NONE], note='logging.getLogger: effect-free'))
+
+
+def _noop_report(ex, node, st, vs):
+    """the comparison report and the log call: side-effect free as far as the returned order goes (DESIGN 1.1, listed)"""
+    return [(st, V(OBJ, z3.Const('ro_report_object', Obj)))]
+
+
+reg.add(Proc(
+    R + 'ro', [('C', OBJ), ('strict', OBJ), ('base_mros', OBJ), ('log_changed_ro', OBJ), ('use_legacy_ro', OBJ)],
+    source='ro.py:ro', result=SEQO,
+    defaults={'strict': VNONE, 'base_mros': VNONE, 'log_changed_ro': VNONE, 'use_legacy_ro': VNONE},
+    calls={'C3.resolver': R + 'C3.resolver2', 'resolver.mro': R + 'C3.mro', '@resolver.legacy_ro': R + 'C3.legacy_ro', '_logger': R + '_logger'},
+    dynattr={'had_inconsistency': _had_inconsistency, 'LOG_CHANGED_IRO': _class_flag(LOG_DEFAULT), 'USE_LEGACY_IRO': _class_flag(LEGACY_DEFAULT)},
+    opaque_calls={'_ROComparison': _noop_report, '.warning': _noop_report},
+    globals={'_ROOT': V(OBJ, z3.Const('ro_ROOT', Obj))},
+    # the two filtered copies only feed the log message: no fact about them is needed
+    loops={'K0': Loop(lambda c: []), 'K1': Loop(lambda c: [])}, locals={'$elt_K0': OBJ, '$elt_K1': OBJ},
+    modifies=['$alloc', 'leaf', 'memo', 'base_tree', '_C3__mro', 'bases_had_inconsistency', 'direct_inconsistency', '$list', '_C3__legacy_ro'],
+    raises={'InconsistentResolutionOrderError': (
+        lambda c: z3.And(truthy(z3.If(c.a.strict != NONE, c.a.strict, STRICT_DEFAULT)), z3.Not(mergeable(_ro_expected(c)[0]))), lambda c: [])},
+    ensures=lambda c: [
+        ('the-C3-merge-when-it-exists-else-the-legacy-order-and-the-legacy-order-when-asked-for', SeqEq(c.res, z3.If(
+            _ro_expected(c)[1], legacy(c.a.C), z3.If(mergeable(_ro_expected(c)[0]), mrg(_ro_expected(c)[0]), legacy(c.a.C)))))],
+))
+
+
+# ------------------------------------------------------------------ Specification._calculate_sro: the root specification comes last
+SSq = z3.ArraySort(Obj, SeqO)
+ro_of = z3.Function('ro_given_the_orders_of_the_bases', Obj, SeqO, SSq, SeqO)
+SPEC_ROOT = z3.Const('Specification_ROOT', Obj)       # Specification._ROOT: Interface once it is defined, None before
+
+
+def _do_calculate_ro(ex, node, st, recv=None):
+    """self._do_calculate_ro(base_mros={b: b.__sro__ for b in self.__bases__}) = ro.ro(self, base_mros=...): the order ro()
+    computes (contract above) from the specification, its bases and the CURRENT orders of those bases; the dictionary
+    comprehension that packages those orders is folded into the arguments of the specification function"""
+    s = ex.args['self'].t
+    return [(st, V(SEQO, ro_of(s, st.heap.get('__bases__')[s], st.heap.get('__sro__'))))]
+
+
+def _csro_order(c):
+    return ro_of(c.a.self, c.h0('__bases__')[c.a.self], c.h0('__sro__'))
+
+
+def _csro_expected(c):
+    o = _csro_order(c)
+    return z3.If(z3.Or(SPEC_ROOT == NONE, L(o) == 0, o[L(o) - 1] == SPEC_ROOT), o, Concat(wo(o, SPEC_ROOT, L(o)), Unit(SPEC_ROOT)))
+
+
+FIELDS['__sro__'] = SEQO
+reg.fields['__sro__'] = SEQO
+reg.add(Proc(
+    'interface.py:Specification._calculate_sro', [('self', OBJ)], source='interface.py:Specification._calculate_sro', result=SEQO,
+    calls={'self._do_calculate_ro': _do_calculate_ro}, dynattr={'_ROOT': lambda ex, node, st, recv: [(st, V(OBJ, SPEC_ROOT))]},
+    locals={'$elt_K1': OBJ, '$value_lists': True}, modifies=['$list', '$alloc'],
+    ensures=lambda c: [
+        ('the-root-specification-comes-last', z3.Implies(z3.And(SPEC_ROOT != NONE, L(_csro_order(c)) > 0),
+                                                         c.res[L(c.res) - 1] == SPEC_ROOT)),
+        ('the-computed-order-with-the-root-moved-to-the-end', SeqEq(c.res, _csro_expected(c)))],
+    loops={'K1': Loop(lambda c: [('filtered-prefix', c.acc == wo(_csro_order(c), SPEC_ROOT, c.i))])},    # K0 is the dict comprehension (folded)
+))
+reg.assumptions.append('Specification._do_calculate_ro is ro.ro (class attribute); the dictionary {base: base.__sro__} handed to it is not modelled as a '
+                       'dictionary: the order is a function of the specification, its bases and the current orders of the bases')
